@@ -68,10 +68,57 @@ async def sk_copy_same_mailbox_and_missing(hp, w, rnd, ctx):
     await w.observe()
 
 
+async def sk_placeholder_destination(hp, w, rnd, ctx):
+    """APPEND/COPY/MOVE into a \\Noselect placeholder are refused and put
+    nothing anywhere."""
+    a = w.session()
+    await w.op_create(a, "ph/child")
+    for i in range(3):
+        await w.op_append(a, "INBOX", flags=rnd.choice([None, ["\\Seen"]]))
+        await w.op_append(a, "ph")
+    await w.op_delete(a, "ph")  # keeps a placeholder because of ph/child
+    await w.observe()
+    await w.op_select(a, "INBOX")
+    await w.op_copy(a, [1, 2], "ph")
+    await w.observe()
+    await w.op_copy(a, [3], "ph", move=True)
+    await w.observe()
+    us = [m.uid for m in w.boxes["INBOX"].msgs]
+    await w.op_copy(a, us[:2], "ph", uid_mode=True, move=True)
+    await w.observe()
+    await w.op_append(a, "ph")
+    await w.observe()
+
+
+async def sk_move_naming_nothing(hp, w, rnd, ctx):
+    """UID MOVE / UID COPY / UID EXPUNGE whose set names no existing message,
+    while other messages are flagged \\Deleted: nothing is removed."""
+    a, b2 = w.session(), w.session()
+    await w.op_create(a, "other")
+    for i in range(7):
+        await w.op_append(a, "INBOX", flags=rnd.choice([None, ["\\Seen"]]))
+    await w.op_select(a, "INBOX")
+    await w.op_select(b2, "INBOX")
+    us = [m.uid for m in w.boxes["INBOX"].msgs]
+    await w.op_store(a, [us[4], us[5]], "add", ["\\Deleted"], uid_mode=True)
+    await w.op_store(b2, [us[1]], "add", ["\\Deleted"], uid_mode=True)
+    await w.op_expunge(b2, uids=[us[1]])
+    await w.observe()
+    await w.op_copy(a, [us[1]], "other", uid_mode=True, move=True)  # session a still believes it exists
+    await w.observe()
+    await w.op_copy(a, [us[-1] + 100, us[-1] + 105], "other", uid_mode=True, move=True)
+    await w.observe()
+    await w.op_copy(a, [us[-1] + 100], "other", uid_mode=True)
+    await w.observe()
+    await w.op_noop(a)
+    await w.op_noop(b2)
+    await w.observe()
+
+
 class C05(HistProp):
     prop = PROP
     names = ["INBOX", "other"]
-    skeletons = [sk_uid_expunge_sparse, sk_examine_session, sk_copy_same_mailbox_and_missing]
+    skeletons = [sk_uid_expunge_sparse, sk_examine_session, sk_copy_same_mailbox_and_missing, sk_placeholder_destination, sk_move_naming_nothing]
     weights = {"append": 9, "store_del": 10, "store": 4, "uid_store": 3, "expunge": 8, "uid_expunge": 7, "copy": 7, "uid_copy": 5, "move": 6, "uid_move": 4,
                "close": 4, "examine": 4, "fetch_body": 3, "deliver": 2, "noop": 4, "idle": 1}
     opts = {"examine_prob": 0.3}
